@@ -1082,7 +1082,9 @@ class Variable(CanBehaveLikeAVariable[T]):
                     self,
                 )
         elif self._should_be_instantiated_:
-            yield from self._instantiate_using_child_vars_and_yield_results_(sources)
+            yield from self._instantiate_using_child_vars_and_yield_results_(
+                sources, parent
+            )
         else:
             raise ValueError("Cannot evaluate variable.")
 
@@ -1091,7 +1093,9 @@ class Variable(CanBehaveLikeAVariable[T]):
         return self._is_inferred_ or self._predicate_type_
 
     def _instantiate_using_child_vars_and_yield_results_(
-        self, sources: Dict[int, HashedValue]
+        self,
+        sources: Dict[int, HashedValue],
+        parent: Optional[SymbolicExpression] = None,
     ) -> Iterable[OperationResult]:
         for kwargs in self._generate_combinations_for_child_vars_values_(sources):
             # Build once: unwrapped hashed kwargs for already provided child vars
@@ -1099,7 +1103,7 @@ class Variable(CanBehaveLikeAVariable[T]):
             instance = self._type_(**{k: hv.value for k, hv in bound_kwargs.items()})
             if self._predicate_type_ == PredicateType.SubClassOfPredicate:
                 instance = instance()
-            yield self._process_output_and_update_values_(instance, kwargs)
+            yield self._process_output_and_update_values_(instance, kwargs, parent)
 
     def _generate_combinations_for_child_vars_values_(
         self, sources: Optional[Dict[int, HashedValue]] = None
@@ -1123,13 +1127,18 @@ class Variable(CanBehaveLikeAVariable[T]):
         yield from combinations(0, sources, {})
 
     def _process_output_and_update_values_(
-        self, instance: Any, kwargs: Dict[str, OperationResult]
+        self,
+        instance: Any,
+        kwargs: Dict[str, OperationResult],
+        parent: Optional[SymbolicExpression] = None,
     ) -> OperationResult:
         """
         Process the predicate/variable instance and get the results.
 
         :param instance: The created instance.
         :param kwargs: The keyword arguments of the predicate/variable.
+        :param parent: The expression that evaluates this one (captured when the evaluation started: the node may be
+         shared with another query whose evaluation runs in between).
         :return: The results' dictionary.
         """
         hv = HashedValue(instance)
@@ -1141,7 +1150,6 @@ class Variable(CanBehaveLikeAVariable[T]):
         # the truthiness of a predicate / symbolic function result is a condition only where the call is evaluated as one
         # (below a logical operator or as the condition of a query), not where it is a value: an operand of a comparison,
         # an argument of another call, a selected expression
-        parent = self._eval_parent_
         evaluated_as_value = (
             self._predicate_type_
             and parent is not None
